@@ -163,6 +163,80 @@ def cls_c16(verdict, case):
     return out or [cls_default(verdict, case)]
 
 
+def cls_c14(verdict, case):
+    """lock driver: clauses "C14.<id> ..." joined by " ;; " (the regenerated table judged against the policy, deadlock
+    replays, the thorough tier's stress run). A line of the full-stack driver (the final dump of the stress run) carries
+    clauses tagged with OTHER properties: a clause that is a known finding of its own property is not counted again, any
+    other one is the class C14.final-state:<tag> (the property's last clause: the invariants hold once the system settles)."""
+    body = verdict[4:] if verdict.startswith("inv ") else verdict
+    core_line = bool(case) and '"c":"core"' in case[-1][:40]
+    out = []
+    for part in body.split(" ;; "):
+        w = part.split()
+        if not w:
+            continue
+        if w[0].startswith("C14.race[") and w[0].endswith("]"):
+            # a race report names the two conflicting functions "A+B"; a known finding names the function that accesses
+            # the data without the lock: C14.race[A]
+            sides = w[0][len("C14.race["):-1].split("+")
+            known_sides = [k for k, _ in runner.load_known("C14")[0] if k.startswith("C14.race[") and k[len("C14.race["):-1] in sides]
+            out.append(known_sides[0] if known_sides else w[0])
+        elif w[0].startswith("C14."):
+            out.append(w[0])
+        elif w[0] == "panic":
+            out.append("C14.machinery-" + "-".join(x.strip('"') for x in w[1:2]))
+        elif core_line and re.match(r"C\d\d\.", w[0]):
+            if w[0] not in _all_known_classes():
+                out.append("C14.final-state:" + w[0])
+        elif w[0] == "diff" and not core_line:
+            out.append("diff-" + w[1])
+    return out
+
+
+_ALL_KNOWN = None
+
+
+def _all_known_classes():
+    global _ALL_KNOWN
+    if _ALL_KNOWN is None:
+        _ALL_KNOWN = set()
+        p = os.path.join(VERIF, "KNOWN_FINDINGS.txt")
+        if os.path.exists(p):
+            for line in open(p):
+                m = re.match(r"known:\s+property=(\S+)\s+class=(\S+)", line.strip())
+                if m:
+                    _ALL_KNOWN.add(m.group(2))
+    return _ALL_KNOWN
+
+
+def c14_pre(run):
+    """thorough tier: a second harness binary built with -race for the concurrent full-stack run (evidence only)"""
+    if run.tier != "thorough":
+        return
+    rb = os.path.join(run.scratch, "ykh-race")
+    rc, out = runner.sh(["go", "build", "-race", "-tags", "verif", "-o", rb, "."], cwd=os.path.join(VERIF, "harness"), env=runner.GOENV)
+    if rc == 0:
+        os.environ["VERIF_RACE_BIN"] = rb
+    else:
+        print("note: race-enabled harness did not build, the stress run uses the plain binary:", out[-300:])
+    os.environ.setdefault("VERIF_STRESS_SECONDS", "180")
+
+
+def c14_report(run):
+    """print the exclusion list of the lock-order policy (trusted base) as the driver sees it against the regenerated table"""
+    try:
+        p = runner.subprocess.run([runner.YKDRV], input='{"c":"lock","op":"policy"}\n', stdout=runner.subprocess.PIPE, stderr=runner.subprocess.PIPE, text=True, timeout=60)
+    except Exception as e:  # noqa
+        print("note: exclusion list not available:", e)
+        return []
+    text = p.stdout.strip()
+    items = text[len("ok policy "):].split(" ;; ") if text.startswith("ok policy ") else []
+    for it in items:
+        if it.startswith("EXCLUDED"):
+            print("EXCLUSION (trusted): property=C14 " + it[len("EXCLUDED "):])
+    return items
+
+
 # a difference between the stepped Core model and the implementation is reported by the properties whose theorems are
 # about that model
 # a difference between the stepped Core model and the implementation is reported by the properties whose theorems are
@@ -343,7 +417,7 @@ PROPS = {
     ),
     "C03": dict(
         module="YkProps.C03",
-        leancheck=['YkModel.CoreState', 'YkModel.CoreOps', 'YkProofs.Core', 'YkProps.C03'],
+        leancheck=['YkModel.CoreState', 'YkModel.CoreOps', 'YkModel.CoreOps2', 'YkModel.CoreRun', 'YkProofs.Core', 'YkProofs.Core2App', 'YkProofs.Core2Base', 'YkProofs.Core2Check', 'YkProofs.Core2Check2', 'YkProofs.Core2Example', 'YkProofs.Core2Example2', 'YkProofs.Core2Link', 'YkProofs.Core2LinkA', 'YkProofs.Core2LinkB', 'YkProofs.Core2LinkC', 'YkProofs.Core2LinkD', 'YkProofs.Core2Node', 'YkProofs.Core2NodeRm', 'YkProofs.Core2Old', 'YkProofs.Core2Rel', 'YkProofs.Core2Repl', 'YkProofs.Core2Resv', 'YkProofs.Core2ResvB', 'YkProofs.Core2Run', 'YkProofs.Core2RunL', 'YkProofs.Core2Swap', 'YkProofs.Core2Timer', 'YkProps.C03'],
         runs=[dict(comp="core", quick=720, thorough=9000, extra=["-mode", "mixed"])],
         classify=cls_tagged("C03"),
         nontrivial=lambda line: '"op":"reset"' not in line,
@@ -371,7 +445,7 @@ PROPS = {
     ),
     "C06": dict(
         module="YkProps.C06",
-        leancheck=['YkModel.Reserve', 'YkProofs.Reserve', 'YkProps.C06'],
+        leancheck=['YkModel.Reserve', 'YkProofs.Reserve', 'YkModel.CoreOps2', 'YkProofs.Core2Swap', 'YkProofs.Core2Repl', 'YkProps.C06'],
         runs=[dict(comp="core", quick=720, thorough=9000, extra=["-mode", "mixed"])],
         classify=cls_tagged("C06"),
         nontrivial=lambda line: '"op":"reset"' not in line,
@@ -636,6 +710,36 @@ PROPS = {
         technique="Lean 4 proof over an executable model of the reload path (refinement against the fresh load) + one-step differential correspondence on a real ClusterContext",
         design_ref="DESIGN.md section 4 C16",
     ),
+    "C14": dict(
+        module="YkProps.C14",
+        leancheck=["YkModel.Lock", "YkModel.Generated.LockOrder", "YkModel.LockPolicy", "YkProofs.Lock", "YkProps.C14"],
+        runs=[dict(comp="lock", quick=1, thorough=1)],
+        classify=cls_c14,
+        pre=c14_pre,
+        report=c14_report,
+        nontrivial=lambda line: True,
+        rule="lock: (1) the lock-order table REGENERATED by translator T4 (extract/lockorder.go: go/packages + go/ssa + VTA call graph over every non-test package under pkg/; per function a flow-sensitive may-hold analysis of Lock/RLock..Unlock/RUnlock incl. defer; transitive acquisitions of callees with one witness chain; "
+             "calls into code outside the repository call back only what is handed over; same-class edges refined by access paths into same/up/down/unknown) is judged by the driver against the rank and the pattern lists of YkModel/LockPolicy.lean: every edge outside the exclusion list must be ranked; "
+             "(2) replays on the real code, each in a child process with go-deadlock enabled, a timeout and a goroutine dump: 150 rounds of a required-node ask cancelling another application's reservation under concurrent RM traffic and readers (excluded edge: must not block); "
+             "3000 rounds of add application / add ask / remove application against the scheduling loop (known finding: orphan allocations); and the regression scenarios of repaired defects that must run clean: a configuration reload that drops a partition (must return, partition gone), rejections against readers of the rejected applications, removal of a user's last application against the scheduling loop; "
+             "(3) thorough only, EVIDENCE ONLY: the concurrent full stack with the threading of Scheduler.StartService (scheduling loop, ONE application+allocation handler, node handler, configuration reloads, real placeholder/state timers, expired-application cleaner, 4 DAO readers) for VERIF_STRESS_SECONDS under -race with go-deadlock enabled; data race reports (one class per pair of conflicting functions), go-deadlock reports, runtime faults, goroutines of the core still blocked on a lock at quiescence, and the full-stack monitors on the final dump. "
+             "Every line is non-trivial; distinct = distinct protocol lines",
+        trusted=["translator T4 (extract/lockorder.go): SSA construction and the VTA call graph of golang.org/x/tools v0.29.0 (sound up to reflection / unsafe); function values kept by objects of types outside the repository are followed only when handed to a constructor of that type (fsm.NewFSM, btree.New..) and keyed by the struct field that keeps the object; "
+                 "code outside the repository calls back only functions / methods of values handed over at that call (errors made outside the repository are taken not to reference the arguments of the failed call); a closure reached from its creating function is the one created by that activation; locks are released in the function that takes them (checked: Gen.LockOrder.leaks = [])",
+                 "the exclusion list of YkModel/LockPolicy.lean (printed by every run as EXCLUSION lines): unrankable edges judged infeasible, each with its reason",
+                 "locks of the standard library and of dependencies (sync.Once, zap, prometheus, fsm internals) are leaf locks outside the model; blocking on channels, WaitGroups and timers is not modelled",
+                 "`up` edges: the acquired queue is reached through .parent from the held one, taken to mean strictly smaller depth in the queue tree (acyclic parent pointers)",
+                 "test doubles (pkg/mock, pkg/examples, *_mock.go) and the shim's callback plugins are outside the analysed program",
+                 "the translator's result is cached by the content hash of the sources and of the translator in .cache/lockorder/ of the framework (git-ignored); a missing cache only costs time"],
+        assumptions=["a thread's acquisitions are exactly the (held, acquired) pairs the translator can see: every pair occurring at run time is an instance of an edge of the table (soundness of the static analysis, see trusted base)",
+                     "queue trees have bounded depth D (the theorem holds for every D)"],
+        level_text="Lean 4 proofs. Generic: in the abstract lock machine (threads holding multisets of (instance, mode), sync.RWMutex blocking incl. writer preference, non re-entrant) any discipline that acquires in strictly increasing rank has no wait-for cycle, no deadlocked set and is never stuck, for any number of threads and locks (induction over reachable states); recursive RLock and re-locking are shown to BE deadlocks of the machine. "
+                   "Specific: a rank of the lock classes (Queue: child before parent) orders every edge of the lock-order table REGENERATED from the current source outside the documented exclusion list (decide over the table; no known lock-order finding is left since ba4338a removed the ClusterContext self edge), hence threads following the table never deadlock. "
+                   "Data races, goroutine leaks and the final-state clause are NOT proved: replays and thorough-tier stress evidence only.",
+        level_note="partial: proof for the lock-order / deadlock clause only, relative to the static analysis and the exclusion list; races, goroutine leaks and the settled-state clause are evidence only (replays, thorough tier)",
+        technique="Lean 4 proof (generic rank theorem by induction + decide over a lock-order table regenerated from source by an SSA/call-graph translator) + replays on the real code; race detector / go-deadlock stress as evidence",
+        design_ref="DESIGN.md section 4 C14",
+    ),
 }
 
 
@@ -680,6 +784,9 @@ def decide(run, cfg, replay):
     except Broken as b:
         tie_broken.append((b.what, b.log))
         can_run = os.path.exists(run.ykh) and os.path.exists(runner.YKDRV)
+
+    if cfg.get("pre") and can_run:
+        cfg["pre"](run)
 
     if replay:
         # replay a file through the harness and print the verdicts
@@ -739,6 +846,8 @@ def decide(run, cfg, replay):
             print("KNOWN-FINDING: property=%s %s %s" % (pid, cl, desc))
         else:
             print("note: known finding %s of %s did not reproduce in this run" % (cl, pid))
+    if cfg.get("report"):
+        cfg["report"](run)
     for i, (cl, (path, v)) in enumerate(sorted(violations.items())):
         rc = 1
         if i >= 8:
